@@ -40,4 +40,81 @@ def info40 (wd ht : Int) (bpp nc : Nat) : Bytes :=
   encS .le 4 40 ++ (encS .le 4 wd ++ (encS .le 4 ht ++ [])) ++ (encS .le 2 1 ++ (encS .le 2 (bpp : Int) ++ []))
     ++ (encS .le 4 0 ++ (encS .le 4 0 ++ (encS .le 4 0 ++ (encS .le 4 0 ++ (encS .le 4 (nc : Int) ++ (encS .le 4 (nc : Int) ++ []))))))
 
+theorem c40 : I32 40 := by unfold I32; omega
+theorem c0 : I32 0 := by unfold I32; omega
+theorem c1 : I16 1 := by unfold I16; omega
+
+theorem packAll_cons {α : Type} (f : α → R Bytes) (a : α) (as : List α) (x y : Bytes) (ha : f a = .ok x) (hs : packAll f as = .ok y) :
+    packAll f (a :: as) = .ok (x ++ y) := by
+  unfold packAll; rw [ha, hs]; rfl
+
+theorem packAll_nil {α : Type} (f : α → R Bytes) : packAll f [] = .ok [] := rfl
+
+theorem info40_p1 (wd ht : Int) (hW : I32 wd) (hH : I32 ht) :
+   packAll packI32 [40, wd, ht] = .ok (encS .le 4 40 ++ (encS .le 4 wd ++ (encS .le 4 ht ++ []))) :=
+  packAll_cons _ _ _ _ _ (packI32_ok _ c40) (packAll_cons _ _ _ _ _ (packI32_ok _ hW) (packAll_cons _ _ _ _ _ (packI32_ok _ hH) (packAll_nil _)))
+
+theorem info40_p2 (bpp : Nat) (hb : bpp < 32768) :
+   packAll packI16 [1, (bpp : Int)] = .ok (encS .le 2 1 ++ (encS .le 2 (bpp : Int) ++ [])) :=
+  packAll_cons _ _ _ _ _ (packI16_ok _ c1) (packAll_cons _ _ _ _ _ (packI16_ok _ (i16_nat _ hb)) (packAll_nil _))
+
+theorem info40_p3 (nc : Nat) (hn : nc < 32768) :
+   packAll packI32 [0, 0, 0, 0, (nc : Int), (nc : Int)] = .ok (encS .le 4 0 ++ (encS .le 4 0 ++ (encS .le 4 0 ++ (encS .le 4 0 ++ (encS .le 4 (nc : Int) ++ (encS .le 4 (nc : Int) ++ [])))))) := by
+  have cn : I32 (nc : Int) := i32_nat _ (by omega)
+  exact packAll_cons _ _ _ _ _ (packI32_ok _ c0) (packAll_cons _ _ _ _ _ (packI32_ok _ c0) (packAll_cons _ _ _ _ _ (packI32_ok _ c0) (packAll_cons _ _ _ _ _ (packI32_ok _ c0)
+    (packAll_cons _ _ _ _ _ (packI32_ok _ cn) (packAll_cons _ _ _ _ _ (packI32_ok _ cn) (packAll_nil _))))))
+
+theorem writeInfoHeader40_ok (wd ht : Int) (bpp nc : Nat) (hW : I32 wd) (hH : I32 ht) (hb : bpp < 32768) (hn : nc < 32768) (b : Buf) :
+    writeInfoHeader40 wd ht bpp nc b = (b ++ info40 wd ht bpp nc, .ok ()) := by
+  unfold writeInfoHeader40
+  rw [info40_p1 _ _ hW hH, info40_p2 _ hb, info40_p3 _ hn]
+  rfl
+
+theorem info40_length (wd ht : Int) (bpp nc : Nat) : (info40 wd ht bpp nc).length = 40 := by
+  simp [info40]
+
+theorem fileHdr_length (size off : Int) : (fileHdr size off).length = 14 := by
+  simp [fileHdr]
+
+/-- the system palette `bitd2bmp` is asked for in the C06 theorems (any table of the right size would do) -/
+def sysPal (nbits : Nat) (name : String) : Bytes :=
+  match lookupN nbits Gen.BitdTables.palettes with
+  | none => []
+  | some tbl => match lookupS name tbl with
+    | some vals => vals.map UInt8.ofNat
+    | none => []
+
+theorem writeColorPalette_sys (nbits nc : Nat) (name : String) (tbl : List (String × List Nat)) (vals : List Nat) (p : Bytes)
+    (h1 : lookupN nbits Gen.BitdTables.palettes = some tbl) (h2 : lookupS name tbl = some vals)
+    (h3 : packPalette (nc * 4) vals = .ok p) (b : Buf) :
+    writeColorPalette nbits nc name [] b = (b ++ p, .ok ()) := by
+  unfold writeColorPalette
+  have h0 : ¬ (([] : Bytes).length > 0) := by simp
+  simp only [h0, if_false, h1, h2, h3]
+  rfl
+
+theorem writeColorPalette_8 (b : Buf) :
+    writeColorPalette 8 256 "systemMac" [] b = (b ++ sysPal 8 "systemMac", .ok ()) ∧ (sysPal 8 "systemMac").length = 1024 := by
+  constructor
+  · have h1 : lookupN 8 Gen.BitdTables.palettes = some (match lookupN 8 Gen.BitdTables.palettes with | some t => t | none => []) := by
+      decide +kernel
+    have h2 : lookupS "systemMac" (match lookupN 8 Gen.BitdTables.palettes with | some t => t | none => []) = some Gen.BitdTables.pal_8_systemMac := by
+      decide +kernel
+    have h3 : packPalette (256 * 4) Gen.BitdTables.pal_8_systemMac = .ok (sysPal 8 "systemMac") := by
+      decide +kernel
+    exact writeColorPalette_sys 8 256 "systemMac" _ _ _ h1 h2 h3 b
+  · decide +kernel
+
+theorem writeColorPalette_1 (b : Buf) :
+    writeColorPalette 1 2 "black and white" [] b = (b ++ sysPal 1 "black and white", .ok ()) ∧ (sysPal 1 "black and white").length = 8 := by
+  constructor
+  · have h1 : lookupN 1 Gen.BitdTables.palettes = some (match lookupN 1 Gen.BitdTables.palettes with | some t => t | none => []) := by
+      decide +kernel
+    have h2 : lookupS "black and white" (match lookupN 1 Gen.BitdTables.palettes with | some t => t | none => []) = some Gen.BitdTables.pal_1_black_and_white := by
+      decide +kernel
+    have h3 : packPalette (2 * 4) Gen.BitdTables.pal_1_black_and_white = .ok (sysPal 1 "black and white") := by
+      decide +kernel
+    exact writeColorPalette_sys 1 2 "black and white" _ _ _ h1 h2 h3 b
+  · decide +kernel
+
 end Drx.Bitd
